@@ -316,6 +316,250 @@ def strict_caller(ctx, tmp):
             ctx.fail("with warnings turned into errors by the caller the model ends with %s instead of %s" % (outs[1], outs[0]), {"source": src})
 
 
+PLUGLIB = "mpverif_c13plug"
+PLUGLIB_SRC = '''
+import numpy
+from mpilot import params
+from mpilot.commands import Command
+from mpilot.exceptions import MPilotError, ProgramError
+
+
+class SourceUnavailable(MPilotError):
+    """an MPilot error of a plug-in library: derived from MPilotError directly, nothing but its text"""
+
+    def __str__(self):
+        return "Problem: The tile service does not answer.\\nSolution: Try again later."
+
+
+class QuotaExceeded(MPilotError):
+    """... built like the NetCDF library's errors: the line is handed to Exception, not kept as an attribute"""
+
+    def __init__(self, what, lineno=None):
+        super(QuotaExceeded, self).__init__(lineno)
+        self.what = what
+
+    def __str__(self):
+        return "Problem: The quota for {} is used up.\\nSolution: Ask for more.".format(self.what)
+
+
+class Unlicensed(MPilotError):
+    """... carrying a `lineno` attribute of its own without being a ProgramError"""
+
+    def __init__(self, lineno=None):
+        super(Unlicensed, self).__init__("unlicensed")
+        self.lineno = lineno
+
+    def __str__(self):
+        return "Problem: No licence for this layer.\\nSolution: Buy one."
+
+
+class BadTile(ProgramError):
+    def __init__(self, lineno=None):
+        super(BadTile, self).__init__(lineno, "Problem: The tile is damaged.\\nSolution: Fetch it again.")
+
+
+class Fetch(Command):
+    inputs = {"How": params.StringParameter()}
+    output = params.DataParameter()
+
+    def execute(self, **kw):
+        how = kw["How"]
+        if how == "unavailable":
+            raise SourceUnavailable()
+        if how == "quota":
+            raise QuotaExceeded("tiles", lineno=self.lineno)
+        if how == "licence":
+            raise Unlicensed(self.lineno)
+        if how == "licence-noline":
+            raise Unlicensed()
+        if how == "damaged":
+            raise BadTile(self.lineno)
+        return numpy.ma.array([1.0, 2.0, 3.0])
+'''
+
+# a user library that defines a command under a name the EEMS libraries use too: requesting both is refused by Program() with a plain MPilotError
+CLASHLIB = "mpverif_c13clash"
+CLASHLIB_SRC = '''
+from mpilot import params
+from mpilot.commands import Command
+
+
+class Copy(Command):
+    inputs = {"InFieldName": params.ResultParameter(params.DataParameter())}
+    output = params.DataParameter()
+
+    def execute(self, **kw):
+        return kw["InFieldName"].result
+'''
+
+
+def _module(name, src):
+    import types
+    if name not in sys.modules:
+        m = types.ModuleType(name)
+        sys.modules[name] = m
+        exec(compile(src, name, "exec"), m.__dict__)
+    return sys.modules[name]
+
+
+def cli_other_routes(ctx, tmp):
+    """the command-line tool on the routes `cli` and `every_error_class` do not take: `eems-netcdf` models whose data the NetCDF reader refuses (its errors derive
+    from MPilotError directly), library sets extended with -l (the NetCDF library under eems-csv and the other way round: "duplicated commands", raised by
+    Program() itself as a plain MPilotError; a user library with its own MPilot errors; a user library that clashes with a built-in command) - the failing
+    command on the first, a middle and the last line, written on one line and on several.  Whatever from_source()/run() raises for the file with that library
+    set, if it is an MPilot error the tool reports it: no exception escapes, the exit status is not 0, the error's text is on standard error"""
+    import numpy
+    import mpilot.cli.mpilot as cli
+    from mpilot.program import Program, EEMS_CSV_LIBRARIES, EEMS_NETCDF_LIBRARIES
+    from mpilot.exceptions import MPilotError, ProgramError
+    from . import c18
+    rng = ctx.rng
+    _module(PLUGLIB, PLUGLIB_SRC)
+    _module(CLASHLIB, CLASHLIB_SRC)
+    arr = numpy.ma.array(numpy.array([[-2.0, 0.5, 7.0], [3.0, 1.0, 0.25]]), mask=[[False, False, False], [True, False, False]])
+    c18.make_var_file(os.path.join(tmp, "o_v.nc"), (2, 3), arr, fill=-9999.0)
+    c18.make_var_file(os.path.join(tmp, "o_ok.nc"), (2, 3), numpy.ma.array(numpy.array([[0.5, 0.25, 1.0], [0.0, 1.0, 0.75]])), fill=-9999.0)
+    open(os.path.join(tmp, "o_t.csv"), "w").write("a,b\n1,2\n3,4\n")
+    good_nc = ['G = EEMSRead(InFileName = "o_ok.nc", InFieldName = v)', 'H = Sum(InFieldNames = [G, G])', 'I = CvtToFuzzy(InFieldName = H, TrueThreshold = 2, FalseThreshold = 0)']
+    good_csv = ['G = EEMSRead(InFileName = "o_t.csv", InFieldName = a)', 'H = Sum(InFieldNames = [G, G])', 'I = CvtToFuzzy(InFieldName = H, TrueThreshold = 2, FalseThreshold = 0)']
+    bad_nc = [('InFileName = "o_v.nc"', 'InFieldName = slope'), ('InFileName = "o_v.nc"', 'InFieldName = v', 'DataType = "Positive Float"'), ('InFileName = "o_v.nc"', 'InFieldName = v', 'DataType = "Positive Integer"'),
+              ('InFileName = "o_v.nc"', 'InFieldName = v', 'DataType = Fuzzy'), ('InFileName = "o_v.nc"', 'InFieldName = v', 'DataType = Fuzzy', 'MissingValue = 7')]
+    jobs = []         # (library argument, -l libraries, lines of the file)
+
+    def placed(good, bad_lines, consumer):
+        """the failing command at the top, in the middle, at the end of a model that is fine otherwise, with or without a consumer"""
+        k = rng.choice([0, 1, len(good)])
+        return good[:k] + bad_lines + ([consumer] if rng.random() < 0.5 else []) + good[k:]
+    for args in bad_nc:
+        for multi in (False, True):
+            bad = ["R = EEMSRead(%s)" % ", ".join(args)] if not multi else ["R = EEMSRead("] + ["    %s%s" % (a, "," if i + 1 < len(args) else "") for i, a in enumerate(args)] + [")"]
+            jobs.append(("eems-netcdf", (), placed(good_nc, bad, rng.choice(['C = Copy(InFieldName = R)', 'S = Sum(InFieldNames = [R, G])']))))
+    jobs.append(("eems-netcdf", (), good_nc))
+    jobs.append(("eems-netcdf", (), good_nc + ['X = Copy(InFieldName = Nowhere)']))
+    # -l: clashing library sets (refused before the file is looked at), in every combination; the same models without the clash
+    for lib_arg, extra, good in (("eems-csv", ("mpilot.libraries.eems.netcdf",), good_csv), ("eems-netcdf", ("mpilot.libraries.eems.csv",), good_nc), ("eems-csv", (CLASHLIB,), good_csv),
+                                 ("eems-netcdf", (PLUGLIB, CLASHLIB), good_nc), ("eems-csv", ("mpilot.libraries.eems.netcdf.io",), good_csv), ("eems-csv", ("mpilot.libraries.eems.fuzzy",), good_csv),
+                                 ("eems-csv", (PLUGLIB,), good_csv), ("eems-netcdf", (PLUGLIB, "mpilot.libraries.eems.basic"), good_nc)):
+        jobs.append((lib_arg, extra, good))
+        jobs.append((lib_arg, extra, good[:1]))
+    # -l: a user library whose commands raise MPilot errors of their own
+    for how in ("unavailable", "quota", "licence", "licence-noline", "damaged", "fine"):
+        for lib_arg, good in (("eems-csv", good_csv), ("eems-netcdf", good_nc)):
+            bad = ['T = Fetch(How = %s)' % how] if rng.random() < 0.5 else ['T = Fetch(', '    How = "%s"' % how, ')']
+            jobs.append((lib_arg, (PLUGLIB,), placed(good, bad, 'C = Copy(InFieldName = T)')))
+    for n, (lib_arg, extra, lines) in enumerate(jobs):
+        src = "\n".join(lines) + "\n"
+        exc = None
+        try:
+            with numpy.errstate(all="ignore"):
+                Program.from_source("\n".join(lines), libraries=tuple(extra) + (EEMS_CSV_LIBRARIES if lib_arg == "eems-csv" else EEMS_NETCDF_LIBRARIES), working_dir=tmp).run()
+        except BaseException as e:      # noqa
+            exc = e
+        got = type(exc).__name__ if exc is not None else "no error"
+        path = os.path.join(tmp, "o_model%d.mpt" % (n % 3))
+        open(path, "w").write(src)
+        argv = [lib_arg, path] + [x for lib in extra for x in ("-l", lib)]
+        with numpy.errstate(all="ignore"):
+            code, err, crash = clicorr._invoke(cli.main, argv)
+        ctx.case("cli-route %r %s" % (argv[:1] + argv[2:], src), sample={"kind": "cli-route", "argv": argv[:1] + argv[2:], "source": src[:200], "raised": got, "exit": code})
+        ctx.count("cli_route:%s" % got)
+        desc = {"command_line": "mpilot %s model.mpt %s" % (lib_arg, " ".join("-l " + lib for lib in extra)), "command_file": src, "from_source_run_raises": got if exc is None else "%s: %s" % (got, exc),
+                "is_ProgramError": isinstance(exc, ProgramError), "exit": code, "stderr": err[-500:], "escaped": crash,
+                "files": "o_v.nc: variable v(2,3) = [[-2, 0.5, 7], [missing, 1, 0.25]]; o_ok.nc: v(2,3) within [0, 1]; o_t.csv: a,b / 1,2 / 3,4",
+                "user_libraries": "harness/props/c13.py PLUGLIB_SRC (%s), CLASHLIB_SRC (%s)" % (PLUGLIB, CLASHLIB)}
+        if exc is None:
+            if code != 0 or crash != "-":
+                ctx.fail("the command-line tool failed (exit %s, escaped %s) on a model that loads and runs with that library set" % (code, crash), desc)
+        elif isinstance(exc, MPilotError):
+            if crash != "-":
+                ctx.fail("the command-line tool died with %s on a model that fails with the MPilot error %s" % (crash, got), desc)
+            elif code == 0:
+                ctx.fail("the command-line tool exited 0 although the model fails with %s" % got, desc)
+            elif str(exc) not in err:
+                ctx.fail("the command-line tool did not print the problem/solution text of %s to standard error" % got, desc)
+        elif not isinstance(exc, SyntaxError):
+            ctx.fail("%s escaped from from_source()/run(): neither a syntax error nor an MPilot error" % got, desc)
+
+
+def unregistered_objects(ctx, tmp):
+    """models built through the programming interface whose references are Command objects that are not - or no longer - among program.commands when run()
+    is called: registered when the consumer was added and taken out with the documented `del program.commands[name]` (before the first run, or between two
+    runs), a free-standing command (pre-computed or not), a command of another program; directly, in a list, in a nested list; plug-in commands and the
+    built-in ones over a table.  Running such a model succeeds or fails with an MPilot error like any other"""
+    from collections import OrderedDict
+    from .. import apihist
+    from mpilot.program import Program
+    rng = ctx.rng
+    open(os.path.join(tmp, "u_t.csv"), "w").write("A,B\n1,10\n2,20\n3,30\n")
+
+    def attempt(what, desc, steps):
+        for text, step in steps:
+            try:
+                step()
+                out = "ok"
+            except BaseException as e:      # noqa
+                out = progrun.classify(e)
+            desc["then"].append("%s   -> %s" % (text, out))
+            ctx.count("unregistered_outcome:" + ":".join(out.split(":")[:2]))
+            if not boundary_ok(out):
+                ctx.fail("%s: %s escaped from %s" % (what, out, text), desc)
+                return
+    for via in ("One", "Many", "Nested", "One+Many"):
+        for how in ("removed before the first run", "removed between two runs", "removed and another command added under its name", "free-standing", "free-standing, finished", "of another program",
+                    "of another program, named only (control)"):
+            w = apihist.World()
+            p = w.program("p")
+            a = w.add(p, "A", 1)
+            if how.startswith("free"):
+                b = w.free("B", 10)
+                if how.endswith("finished"):
+                    b.result
+            elif how.startswith("of another"):
+                other = w.program("other")
+                b = w.add(other, "B", 10)
+            else:
+                b = w.add(p, "B", 10)
+            named = how.endswith("(control)")
+            t = w.add(p, "T", 100, one=b if via in ("One", "One+Many") else None, many=[a, b] if via in ("Many", "One+Many") else None, nested=[[a], [b, a]] if via == "Nested" else None,
+                      by=lambda r: "name" if (r is a and rng.random() < 0.5) or named else "object")
+            desc = w.describe([])
+            steps = []
+
+            def remove():
+                del p.commands["B"]
+            if how == "removed between two runs":
+                steps.append(("p.run()", p.run))
+            if how.startswith("removed"):
+                steps.append(("del p.commands['B']", remove))
+            if how.endswith("under its name"):
+                steps.append(("p.add_command(Val, 'B', {'Value': 5})", lambda: p.add_command(w.m.Val, "B", OrderedDict([("Value", 5)]))))
+            if rng.random() < 0.5:
+                steps.append(("p.add_command(Val, 'Out', {'One': <the command T of p>})", lambda: p.add_command(w.m.Val, "Out", OrderedDict([("One", t)]))))
+            steps += [("p.run()", p.run), ("p.commands['T'].result", lambda: p.commands["T"].result), ("p.run()", p.run)]
+            ctx.case("unregistered %s %s %r" % (via, how, [s_[0] for s_ in steps]), sample=None)
+            ctx.count("unregistered_object_cases")
+            attempt("a model whose %s reference is a Command object %s" % (via, how), desc, steps)
+    # the built-in commands over a table
+    src = 'A = EEMSRead(InFileName = "u_t.csv", InFieldName = A)\nB = EEMSRead(InFileName = "u_t.csv", InFieldName = B)\n'
+    for cmd, args in (("Sum", lambda p: {"InFieldNames": [p.commands["A"], p.commands["B"]]}), ("AMinusB", lambda p: {"A": p.commands["A"], "B": p.commands["B"]}), ("Copy", lambda p: {"InFieldName": p.commands["B"]}),
+                      ("EEMSWrite", lambda p: {"OutFileName": "u_out.csv", "OutFieldNames": [p.commands["B"], "A"]})):
+        for between in (False, True):
+            p = Program.from_source(src, working_dir=tmp)
+            desc = {"source": src, "then": ["program.add_command(%s, 'T', {... the commands A / B given as objects ...})" % cmd]}
+            p.add_command(p.find_command_class(cmd), "T", OrderedDict(args(p)))
+            victim = rng.choice(["A", "B"]) if cmd in ("Sum", "AMinusB") else "B"
+
+            def remove():
+                del p.commands[victim]
+            steps = ([("program.run()", p.run)] if between else []) + [("del program.commands[%r]" % victim, remove)]
+            if cmd != "EEMSWrite":
+                steps.append(("program.add_command(Copy, 'Out', {'InFieldName': <the command T>})", lambda: p.add_command(p.find_command_class("Copy"), "Out", OrderedDict([("InFieldName", p.commands["T"])]))))
+            steps += [("program.run()", p.run), ("program.run()", p.run)]
+            ctx.case("unregistered-eems %s %s %s" % (cmd, between, victim), sample=None)
+            ctx.count("unregistered_object_cases")
+            attempt("%s over Command objects one of which was removed from program.commands %s" % (cmd, "between two runs" if between else "before the first run"), desc, steps)
+
+
 def run(ctx):
     ctx.check_proofs(["MPilot.Props.C13", "MPilot.Props.C13Cli", "MPilot.Props.C13Err", "MPilot.Props.C13Run"])
     model = common.Model()
@@ -385,7 +629,9 @@ def run(ctx):
     strict_caller(ctx, tmp)
     cli(ctx, tmp, 12 if ctx.thorough else 9)
     every_error_class(ctx, tmp)
-    clicorr.formatting(ctx, model, ctx.budget(60, 3000))         # the tool's reporting against Model/Cli (Props/C13Cli.lean)
+    cli_other_routes(ctx, tmp)
+    unregistered_objects(ctx, tmp)
+    clicorr.formatting(ctx, model, ctx.budget(60, 3000), reports=True)         # the tool's reporting against Model/Cli (Props/C13Cli.lean)
     return ctx.finish(
         rule="(a) every command x parameter x raw kinds (numbers, booleans, strings incl. non-ASCII/backslash/quote, names of results of every kind, "
              "unknown names, lists, nested lists, dicts) and failing bodies, through from_source()/run()/result; (b) single-token corruptions of those "
